@@ -17,6 +17,15 @@ for path in sys.argv[1:]:
             merged = list(old[0]) + [x for x in ids if x not in old[0]]
             osig = dict(old[1]); osig.update(sig)
             fired[m.group(1)] = (sorted(merged), osig)
+# alarms that were the harness's own fault at the time of the run (DESIGN.md section 17) are not detections
+spurious_c10 = {'C02-E', 'C02-F', 'C03-E', 'C03-F', 'C04-E', 'C04-F', 'C05-E', 'C05-F'}
+for k in list(fired):
+    ids, sig = fired[k]
+    if k in spurious_c10:
+        ids = [i for i in ids if i != 'C10']
+    if k == 'C10-F':
+        ids = [i for i in ids if i != 'C14']
+    fired[k] = (ids, sig)
 for d in sorted(glob.glob(os.path.join(root, 'C*-*'))):
     name = os.path.basename(d)
     prop = name[:3]
